@@ -5,6 +5,7 @@ import (
 	"strings"
 	"time"
 
+	"github.com/olive-io/bpmn/schema"
 	"github.com/olive-io/bpmn/v2/pkg/event"
 
 	"verifharness/internal/eng"
@@ -20,7 +21,7 @@ func init() {
 			if tier == "thorough" {
 				return 1200
 			}
-			return 150
+			return 600
 		},
 		Run: c14engRun,
 	}
@@ -113,7 +114,14 @@ func c14engRun(out *rec.Out, idx int, rng *rec.Rng, tier string, stats map[strin
 			stats["deliveries"] += nb
 			continue
 		}
-		in.Deliver("signal", pick(), 2*timeSecond)
+		if nm := pick(); nm == "other" {
+			// an event that matches no definition — of ANY kind the library knows, not only a foreign signal: it changes nothing
+			ev, kind := c14engOther(rng.Intn(9))
+			in.DeliverEvent(ev, "signal", "other", 2*timeSecond)
+			stats["nonmatching_"+kind]++
+		} else {
+			in.Deliver("signal", nm, 2*timeSecond)
+		}
 		stats["deliveries"]++
 	}
 	in.Quiesce(2 * timeSecond)
@@ -121,4 +129,31 @@ func c14engRun(out *rec.Out, idx int, rng *rec.Rng, tier string, stats map[strin
 		out.Line("%s", l)
 	}
 	in.Stop(2 * timeSecond)
+}
+
+// c14engOther: events that match no signal definition, one per kind of event value
+func c14engOther(k int) (event.IEvent, string) {
+	switch k {
+	case 0:
+		ee := schema.DefaultEndEvent()
+		return event.MakeEndEvent(&ee), "end"
+	case 1:
+		return event.MakeNoneEvent(), "none"
+	case 2:
+		return event.MakeCancelEvent(), "cancel"
+	case 3:
+		return event.MakeTerminateEvent(), "terminate"
+	case 4:
+		ev := event.MakeCompensationEvent("x")
+		return &ev, "compensation"
+	case 5:
+		return event.NewMessageEvent("other", nil), "message"
+	case 6:
+		ev := event.MakeEscalationEvent("esc")
+		return &ev, "escalation"
+	case 7:
+		ev := event.MakeErrorEvent("err")
+		return &ev, "error"
+	}
+	return event.NewSignalEvent("other"), "signal"
 }
